@@ -11,6 +11,7 @@ import Simfile.Model.Objects
 import Simfile.Model.Notes
 import Simfile.Model.Group
 import Simfile.Model.Engine
+import Simfile.Model.Load
 import Simfile.Spec.Timeline
 import Simfile.Spec.Notes
 import Simfile.Spec.Group
@@ -296,6 +297,13 @@ def handle (j : Json) : R Json := do
   | "obj.sm_chart_from_str" => pure (jExcept jObjErr jSMChart (smChartFromStr (← getStr (← field j "s"))))
   | "obj.sm_chart_from_msd" => pure (jExcept jObjErr jSMChart (smChartFromMsd (← getArr getStr (← field j "values"))))
   | "obj.notes_last" => pure (jSSC (← getSSC (← field j "sf")).notesLast)
+  | "load.any" =>
+    let name ← getOptStr (fieldD j "name" Json.null)
+    let force := fieldD j "force" Json.null
+    let toks : Tokens := { params := ← getArr getParam (← field j "params"),
+                           strayError := !(fieldD j "tokerr" Json.null).isNull }
+    let r := if force.isNull then load name toks else construct (force == Json.str "ssc") toks
+    pure (jExcept jObjErr (fun l => match l with | .sm s => jSM s | .ssc s => jSSC s) r)
   | "obj.detect" =>
     let name ← getOptStr (fieldD j "name" Json.null)
     let ps ← getArr getParam (← field j "params")
